@@ -6,7 +6,7 @@ import asyncio
 import os
 import re
 
-STATUSES = [200, 201, 204, 299, 304, 404, 418, 500, 599]
+STATUSES = [200, 201, 204, 299, 304, 404, 418, 500, 599, 600, 799, 999]
 
 
 # ------------------------------------------------------------------ iterables
